@@ -745,6 +745,8 @@ LONG_VALUES = {
     'list-of-long-dicts': lambda: [{'key%d' % i: i for i in range(N_LONG)}, 1],
     'eight-levels-of-lists': lambda: [[[[[[[[1, 2]]]]]]], 0],
     'nine-levels-mixed': lambda: {'a': [{'b': ({'c': [{'d': [{'e': 'deep'}]}]},)}]},
+    'cyclic-list': lambda: mk_cyclic_list(),
+    'cyclic-dict': lambda: mk_cyclic_dict(),
     'short-dict-subclass': lambda: Table(a=1),
     'short-ordereddict': lambda: collections.OrderedDict([('b', 1), ('a', 2)]),
 }
@@ -758,12 +760,56 @@ for _name in list(_REPRLIB.__dict__):
         setattr(_REPRLIB, _name, 1024)
 
 
+def unrolled(v, depth=25):
+    """a cyclic container written out level by level (what a depth-limited printer shows); dict keys sorted"""
+    if depth == 0:
+        return '...'
+    if isinstance(v, dict):
+        try:
+            keys = sorted(v)
+        except TypeError:
+            keys = list(v)
+        return '{' + ', '.join('%s: %s' % (unrolled(k, depth - 1), unrolled(v[k], depth - 1)) for k in keys) + '}'
+    if isinstance(v, list):
+        return '[' + ', '.join(unrolled(x, depth - 1) for x in v) + ']'
+    return repr(v)
+
+
+def cut_repr(v, marker, path=()):
+    """a container that contains itself, cut off where it comes round again (marker: how the cut is written); dict keys sorted"""
+    if isinstance(v, (dict, list)) and id(v) in path:
+        return marker(v)
+    if isinstance(v, dict):
+        try:
+            keys = sorted(v)
+        except TypeError:
+            keys = list(v)
+        return '{' + ', '.join('%s: %s' % (cut_repr(k, marker, path + (id(v),)), cut_repr(v[k], marker, path + (id(v),))) for k in keys) + '}'
+    if isinstance(v, list):
+        return '[' + ', '.join(cut_repr(x, marker, path + (id(v),)) for x in v) + ']'
+    return repr(v)
+
+
+def mk_cyclic_list():
+    l = [1, 'two']
+    l.append(l)
+    return l
+
+
+def mk_cyclic_dict():
+    d = {'k': 1}
+    d['self'] = d
+    d['l'] = [d]
+    return d
+
+
 def faithful_renderings(v):
     out = []
-    for f in (repr, _REPRLIB.repr, myrepr):
+    for f in (repr, _REPRLIB.repr, myrepr, lambda x: cut_repr(x, lambda c: '...'),
+              lambda x: cut_repr(x, lambda c: '[...]' if isinstance(c, list) else '{...}')):
         try:
             out.append(f(v).replace("\\'", "'"))
-        except Exception:
+        except (Exception, RecursionError):
             pass
     return out
 
@@ -787,7 +833,11 @@ def run_long(case):
         glom(target, spec)
         return R({'expected': 'a failure', 'observed': 'no exception', 'case': repr(case)}, 'no-failure')
     except Exception as e:
-        msg = str(e)
+        try:
+            msg = str(e)
+        except Exception as e2:
+            return R({'expected': 'a message with a target-spec trace', 'observed': 'str() of the error raised %s' % type(e2).__name__,
+                      'value': vname, 'position': position, 'failing spec': fname}, 'message-fails')
     items, rest, perr = parse(msg)
     where = {'value': vname, 'position': position, 'failing spec': fname, 'message': msg[:1200]}
     if perr:
